@@ -413,6 +413,9 @@ class Inquiry(SCSICommand):
         convert.decode_bits(data, cls._datain_bits, result)
 
         if evpd == 0:
+            # only the bytes covered by ADDITIONAL LENGTH are valid inquiry data
+            if len(data) > 4:
+                data = data[: data[4] + 5]
             convert.decode_bits(data, cls._standard_bits, result)
             return result
 
